@@ -355,4 +355,23 @@ example :
     s.reg .rsp = 9808 ∧ s.mem 20000 = 9808 ∧ s.mem 9808 = 4000001 ∧ s.mem 9824 = 6 ∧ s.mem 9864 = 1 := by
   decide
 
+/-- concrete run of the final jump with callback: `exCallee` really writes into its frame below the
+    target rsp (49984, 49928) and destroys rax / rcx, the return address lands at `T − 8`, nothing
+    is written on the finished thread's stack (rsp 10000), control arrives at the saved label -/
+example :
+    let m : M := {
+      reg := (fun r => match r with
+        | .rsp => 10000 | .rax => 20000 | .rdi => 11 | .rsi => 22 | .rdx => 33 | _ => 0),
+      mem := (fun a => if a = 20000 then 50000 else if a = 50000 then 4000001 else 0),
+      pc := 0 }
+    let s := exec exEnv m setWcSwitch
+    s.reg .rsp = 50008 ∧ s.pc = 4000001 ∧ s.mem 49992 = 4100000 ∧ s.mem 49984 = 777 ∧
+    s.mem 49928 = 888 ∧ s.mem 10000 = 0 ∧ s.mem 9992 = 0 ∧ ObeysSysV exEnv.callee 0 (fun _ => False) := by
+  refine ⟨by decide, by decide, by decide, by decide, by decide, by decide, by decide, exCallee_sysv⟩
+
+/-- the alignment hypotheses are satisfiable: a 16-aligned saved context (10000 − 192 = 9808)
+    and both kinds of fresh context for a typical stack top -/
+example : (10000 - frameBytes swapWcSave) % 16 = 0 ∧ mkCtxRsp emptySub emptyAlign 70000 = 70000 ∧
+    mkCtxRsp voidSub voidAlign 70000 = 69984 := by decide
+
 end MythVerif.X86
